@@ -17,6 +17,9 @@ def files_of(patch):
 
 
 refs = sorted(d for d in os.listdir(os.path.join(V, "refactors")) if os.path.isdir(os.path.join(V, "refactors", d)))
+if os.environ.get("CROSS_REFS"):
+    import re as _re
+    refs = [d for d in refs if _re.search(os.environ["CROSS_REFS"], d)]      # restrict to some refactorings (e.g. the newest round)
 muts = sorted(os.listdir(os.path.join(V, "seeded")))
 pairs = []
 for r in refs:
